@@ -129,7 +129,13 @@ var dc1Table = [5]byte{0x00, 0x40, 0x80, 0xc0, 0xff}
 
 func Is1(c color.RGBA) bool {
 	is1 := func(u uint8) bool { return u&0x3f == 0 || u == 0xff }
-	return is1(c.R) && is1(c.G) && is1(c.B) && is1(c.A)
+	if c.A != 0xff {
+		// The only non-opaque colors with a 1 byte encoding are 125, 126 and 127.
+		return c == color.RGBA{0x00, 0x00, 0x00, 0x00} ||
+			c == color.RGBA{0x80, 0x80, 0x80, 0x80} ||
+			c == color.RGBA{0xc0, 0xc0, 0xc0, 0xc0}
+	}
+	return is1(c.R) && is1(c.G) && is1(c.B)
 }
 
 func Is2(c color.RGBA) bool {
